@@ -256,7 +256,7 @@ def run(ctx):
     if not canary_seen:
         canary_trouble.append("a corrupted observation (case 0) was accepted by TraceDebVersion")
     checked -= len(extra)
-    if checked != nobs or nobs != nrand:
+    if checked != nobs or nobs < nrand:      # nobs = directed boundary-number pairs + nrand random pairs
         raise InfraError("I->T: %d observations recorded, %d written, %d validated" % (nrand, nobs, checked))
     ctx.log("I->T: %d random observations validated by TLC, %d in-scope differences, %d outside scope" % (checked, rand_bad, rand_out))
 
@@ -319,7 +319,7 @@ def run(ctx):
                       "reference = Debian policy 5.6.12 ordering, calibrated during development against dpkg --compare-versions (no run-time dependency)",
                       "'exactly as Debian' is demanded only for pairs of versions that pass snap.ValidateVersion and carry no epoch; "
                       "':' elsewhere in a version is ordered as an ordinary non-letter (natural extension of verrevcmp; Debian itself rejects such versions)",
-                      "digit runs in random versions are limited to 9 digits (the reference uses integer values)",
+                      "numeric parts are compared as digit strings of arbitrary length in the reference (no integer conversion); random and directed inputs carry digit runs of up to 24 digits",
                   ],
                   violations=uniq, notes=notes)
 
